@@ -37,6 +37,8 @@ THEOREMS = [
     "Files.restart_crash_window",
     "Files.restart_crash_loadable_false",
     "Files.reopened_files_keep_content",
+    "Files.failed_call_keeps_restart_point",
+    "Files.failed_call_pinned_empties",
     "Files.isFrameCall_iff",
     "Files.isRestartCall_iff",
 ]
@@ -811,6 +813,100 @@ class LoggerFailedCall(common.Suite):
         return f"mode={case['mode']},first-failing-field={'first' if first == 0 else 'later'},array={case['array_field']}"
 
 
+class RestartFailedCall(common.Suite):
+    """the restart file is rewritten only once the new document exists: when `to_dict()` of the simulation (a user move, a
+    calculator-dependent field) or the JSON encoder fails, the previous restart point is still in the file; and the documented
+    `write_kwargs` (handed to the JSON writer) do not make the call fail. Real `RestartObserver` on a real file."""
+
+    name = "restart-failed-call"
+
+    def cases(self, rng, tier):
+        n = 16 if tier == "quick" else 160
+        for i in range(n):
+            ncalls = rng.randint(2, 6)
+            yield {"ncalls": ncalls, "fail_at": sorted(rng.sample(range(1, ncalls), rng.choice([0, 1, 1, min(2, ncalls - 1)]))),
+                   "write_kwargs": [None, {"indent": 2}, {"sort_keys": True}][i % 3], "mode": rng.choice("aw")}
+
+    def real(self, case):
+        import numpy as np
+        import quansino.mc  # noqa: F401
+        from ase.build import bulk
+        from ase.calculators.calculator import Calculator, all_changes
+        from ase.io.jsonio import read_json
+        from quansino.io.restart import RestartObserver
+        from quansino.mc.canonical import Canonical
+        from quansino.moves.displacement import DisplacementMove
+
+        class Harm(Calculator):
+            implemented_properties = ["energy", "forces"]  # noqa: RUF012
+
+            def calculate(self, atoms=None, properties=None, system_changes=all_changes):
+                super().calculate(atoms, properties, system_changes)
+                d = self.atoms.get_positions() - 1.7
+                self.results = {"energy": 0.05 * float((d * d).sum()), "forces": -0.1 * d}
+
+        state = {"call": 0}
+        fail_at = set(case["fail_at"])
+
+        class Moody(DisplacementMove):
+            def to_dict(self):
+                if state["call"] in fail_at:
+                    raise RuntimeError("to_dict failed")
+                return super().to_dict()
+
+        out = {"calls": []}
+        with tempfile.TemporaryDirectory(prefix="qverif-c16r-") as tmp, warnings.catch_warnings():
+            warnings.simplefilter("ignore")
+            atoms = bulk("Cu", cubic=True)
+            atoms.calc = Harm()
+            sim = Canonical(atoms, temperature=300.0, seed=5, max_cycles=1,
+                            default_displacement_move=Moody(np.arange(len(atoms))))
+            path = pathlib.Path(tmp) / "restart.json"
+            kw = {} if case["write_kwargs"] is None else {"write_kwargs": dict(case["write_kwargs"])}
+            ro = RestartObserver(sim, path, interval=1, mode=case["mode"], **kw)
+            last_good = None
+            for c in range(case["ncalls"]):
+                state["call"] = c
+                sim.step_count = c
+                try:
+                    ro()
+                    ok = True
+                except RuntimeError:
+                    ok = False
+                except TypeError as e:
+                    out["calls"].append({"ok": False, "typeerror": str(e)[:120]})
+                    continue
+                try:
+                    loaded = read_json(path)
+                    step = loaded["attributes"]["step_count"] if isinstance(loaded, dict) else None
+                except Exception as e:  # noqa: BLE001
+                    step = f"unloadable:{type(e).__name__}"
+                if ok:
+                    last_good = c
+                out["calls"].append({"ok": ok, "file_step": step, "want": last_good, "size": path.stat().st_size})
+            ro.close()
+        return out
+
+    def oracle(self, case, obs):
+        if "exception" in obs:
+            return [(f"restart-call:exception:{obs['exception']}", obs.get("message", "") + obs.get("trace", "")[-300:])]
+        out = []
+        for i, c in enumerate(obs["calls"]):
+            if "typeerror" in c:
+                out.append((f"restart-call:write-kwargs-refused:{sorted(case['write_kwargs'] or {})}",
+                            f"call {i}: {c['typeerror']}"))
+                break
+            if c["file_step"] != c["want"]:
+                out.append(("restart-call:previous-restart-point-lost" if not c["ok"] else "restart-call:document-not-current",
+                            f"call {i} ({'completed' if c['ok'] else 'failed in to_dict'}): the file holds {c['file_step']!r} "
+                            f"({c['size']} bytes), the last completed call was {c['want']}"))
+                break
+        return out
+
+    def classify(self, case, obs):
+        return f"kwargs={sorted(case['write_kwargs'] or {})}:fails={len(case['fail_at'])}"
+
+
 class RunAfterClose(common.Suite):
     """files the simulation opened by name, a run, `close()`, and another run on the same object: whatever the second run
     does (today it raises on the closed files), the bytes the first run left are still there — nothing re-opens a file in
@@ -892,4 +988,4 @@ class RunAfterClose(common.Suite):
 
 
 def suites(tier):
-    return [FileCrash(), FileSemantics(), LoggerFailedCall(), RunAfterClose()]
+    return [FileCrash(), FileSemantics(), LoggerFailedCall(), RestartFailedCall(), RunAfterClose()]
